@@ -204,8 +204,8 @@ class ControllerApplication:
                 # TODO: are there any state variables we have to care about?
                 self._device_address = j1939.ParameterGroupNumber.Address.NULL
                 # TODO: maybe we should call an overloadable function here
-                if self._name.arbitrary_address_capable == False:
-                    # bad luck
+                if self._name.arbitrary_address_capable == False or self._device_address_announced >= 253:
+                    # bad luck (single address CA, or no address left to try: 254 is the NULL address)
                     logger.error("After releasing our address we are configured to stop operation (CANNOT CLAIM)")
                     self._device_address_state = ControllerApplication.State.CANNOT_CLAIM
                     self._device_address = None
